@@ -750,6 +750,11 @@ lyxml_open_element(struct lyxml_ctx *xmlctx, const char *prefix, size_t prefix_l
             prev_line = xmlctx->in->line;
         }
     }
+    if (ret) {
+        /* invalid character instead of an attribute */
+        LOGVAL(xmlctx->ctx, LY_VCODE_INCHAR, xmlctx->in->current[0]);
+        ret = LY_EVALID;
+    }
 
 cleanup:
     if (!ret) {
